@@ -60,7 +60,7 @@ func edgeVals(d ref.DT) []interface{} {
 		}
 		return []interface{}{complex128(0), complex128(1), complex128(1i), complex128(-2 + 3i), complex128(1e10 + 1e10i), complex128(-1 - 1i), complex128(0.5 - 2i), complex128(3)}
 	case ref.CString:
-		return []interface{}{"", "a", "b", "ab", "é", "a", "zz", "A"}
+		return []interface{}{"", "a,b", "b", "q\"q", "é", "a", "zz", "A", "x y", "-", "ab", "#x"} // (C14 rotates the list: the last value comes first - a leading '#' in the first cell of a CSV row)
 	case ref.CBool:
 		return []interface{}{true, false, false, true, true, false}
 	}
@@ -289,7 +289,14 @@ func ewExec(r *core.Run, c ewCase) (*core.Fail, string) {
 			return nil, "skip:" + c.layA
 		}
 	}
-	if needB {
+	if needB && c.layB == "=a" {
+		// the SAME tensor on both sides (x op x): one object, one storage, whatever shortcuts identity invites
+		if A == nil {
+			return nil, "skip:=a"
+		}
+		B = A
+		bv = av
+	} else if needB {
 		if B, err = build(bv, c.layB, d); err != nil {
 			return nil, "skip:" + c.layB
 		}
